@@ -86,6 +86,31 @@ def checkCase (j : Json) : Except String Verdict := do
         v := v.mon "C08" "starts_only_with_client_credentials" i s!"id='{strD r "id"}' secret set: {strD r "secret" != ""}; a credential-less /validate got {intD r "credentialLessStatus"}"
       v := v.br (if want then "cfgcheck/valid" else "cfgcheck/refused")
       i := i + 1
+    -- every setting the deployment states in the environment is the one in force
+    let secs (d : String) : String :=
+      let num := String.ofList (d.toList.takeWhile Char.isDigit)
+      let unit := String.ofList (d.toList.dropWhile Char.isDigit)
+      match num.toNat?, unit with
+      | some n, "m" => s!"{n * 60}s" | some n, "h" => s!"{n * 3600}s" | _, _ => d
+    let propsOf (k : String) : List String :=
+      if k.startsWith "CLIENT_" then ["C08"] else if k == "AUTHORIZE_PROXY_DOMAINS" then ["C07"]
+      else if k.startsWith "AUTHORIZE_EMAIL" || k == "SESSION_LIFETIME" then ["C09"]
+      else if k.startsWith "SESSION_COOKIE" then ["C18", "C02"] else if k == "SESSION_KEY" then ["C02", "C08"] else ["C07"]
+    for er in ((jarr j "cfgenv").toOption.getD #[]) do
+      let env := getJ er "env"
+      let got := getJ er "got"
+      if !(boolD er "loaded") then v := v.diff i "cfgenv.loaded" "loaded" (strD er "error" ++ strD er "panic") ["C08"]
+      else
+        match env with
+        | .obj kvs =>
+          for (k, want) in kvs.toList do
+            let w := want.getStr?.toOption.getD ""
+            let wantN := if k == "SESSION_LIFETIME" || k == "SESSION_COOKIE_EXPIRE" then secs w else w
+            if k != "SESSION_COOKIE_REFRESH" && strD got k != wantN then
+              v := v.mons (propsOf k) "setting_as_stated" i s!"{k}={w} is in force as '{strD got k}'"
+        | _ => pure ()
+      v := v.br "cfgenv"
+      i := i + 1
     return { v with nontrivial := true }
   | none => pure ()
   -- browsers at the signature gate at once: a borrowed signature is refused, the genuine link passes
